@@ -203,6 +203,12 @@ class Weaver:
             if kept:
                 generics_txt = "<" + ", ".join(kept) + ">"
             j = gc + 1
+        if unit.add_generics:
+            extra = expand(unit.add_generics, ctx).strip()
+            if extra.startswith("<"):
+                extra = extra[1:-1]
+            generics_txt = "<" + extra + (", " + generics_txt[1:-1] if generics_txt else "") + ">"
+            fired("R19:impl-generics-to-method")
         assert toks[j].text == "(", "unit %s: expected ( in signature" % unit.name
         pc = pairs[j]
         mut_self = toks[j + 1].text == "mut" and toks[j + 2].text == "self"
@@ -255,6 +261,8 @@ class Weaver:
             if dec:
                 sig_text += "    decreases" + dec + "\n"
 
+        w.head_parts = dict(quals=quals, name=out_name, generics=generics_txt, params=params_txt, ret=ret_txt)
+        w.sig_text = sig_text
         w.segs.append(Seg(head + "\n", "src"))
         if sig_text.strip():
             w.segs.append(Seg(sig_text if sig_text.endswith("\n") else sig_text + "\n", "woven", "sig"))
